@@ -540,3 +540,96 @@ Proof.
   intros evs e H. induction H as [|x t [r Hx] Ht IH]; simpl; [reflexivity|].
   subst x. exact IH.
 Qed.
+
+(* ---- the statements used by Properties/C17.v ----------------------------- *)
+Lemma first_poll_thm : forall ids p rest,
+  clean ids p ->
+  exists evs tl,
+    run (mkSc ids None (p :: rest)) = evs ++ tl /\
+    run (mkSc ids None [p]) = evs ++ [Close] /\
+    Forall is_upd evs /\
+    (forall j, In j ids -> exists r, p_read p j = RStatus r /\ filter (upd_for j) evs = [Upd r]) /\
+    (forall j, ~ In j ids -> filter (upd_for j) evs = []).
+Proof.
+  intros ids p rest Hp.
+  destruct (emit_rule ids [] p (Forall_nil _) Hp) as [tr [evs [H1 [H2 [H3 [H4 [H5 [H6 _]]]]]]]].
+  assert (tr = []) by (destruct tr as [|x [|y t]]; [reflexivity | inversion H1 | inversion H1]); subst tr.
+  destruct (H3 rest) as [tl Htl]. exists evs, tl. simpl in *.
+  split; [exact Htl|]. split; [exact H2|]. split; [exact H5|]. split.
+  - intros j Hj. destruct Hp as [_ [_ Ha]]. destruct (Ha j Hj) as [r [Hr _]]. exists r.
+    split; [exact Hr|]. rewrite H6. apply existsb_eqb_In in Hj. rewrite Hj.
+    unfold expected. now rewrite Hr.
+  - intros j Hj. rewrite H6. destruct (existsb (Nat.eqb j) ids) eqn:E; [|reflexivity].
+    apply existsb_eqb_In in E. contradiction.
+Qed.
+
+Lemma emit_iff_thm : forall ids ps p,
+  ps <> [] -> Forall (clean ids) ps -> clean ids p ->
+  exists tr evs,
+    run (mkSc ids None ps) = tr ++ [Close] /\
+    run (mkSc ids None (ps ++ [p])) = tr ++ evs ++ [Close] /\
+    (forall rest, exists tl, run (mkSc ids None (ps ++ p :: rest)) = tr ++ evs ++ tl) /\
+    Forall is_upd tr /\ Forall is_upd evs /\
+    (forall j, In j ids -> exists r old,
+        p_read p j = RStatus r /\ last_emitted tr j = Some old /\
+        filter (upd_for j) evs = if rs_equal r old then [] else [Upd r]) /\
+    (forall j, ~ In j ids -> filter (upd_for j) evs = []) /\
+    (* afterwards the last emitted status is equal (in that sense) to the reading *)
+    (forall j, In j ids -> exists r old, p_read p j = RStatus r /\
+        last_emitted (tr ++ evs) j = Some old /\ rs_equal r old = true).
+Proof.
+  intros ids ps p Hne Hps Hp.
+  destruct (emit_rule ids ps p Hps Hp) as [tr [evs [H1 [H2 [H3 [H4 [H5 [H6 [H7 H8]]]]]]]]].
+  exists tr, evs. simpl. repeat split; auto.
+  - intros j Hj. destruct Hp as [_ [_ Ha]]. destruct (Ha j Hj) as [r [Hr _]].
+    destruct (last_emitted tr j) as [old|] eqn:Hl; [|exfalso; now apply (H7 Hne j Hj)].
+    exists r, old. repeat split; auto. rewrite H6. apply existsb_eqb_In in Hj. rewrite Hj.
+    unfold expected. rewrite Hr, Hl. simpl. now destruct (rs_equal r old).
+  - intros j Hj. rewrite H6. destruct (existsb (Nat.eqb j) ids) eqn:E; [|reflexivity].
+    apply existsb_eqb_In in E. contradiction.
+Qed.
+
+Lemma no_spurious_thm : forall sc pre r post,
+  (forall p, In p (s_polls sc) -> wf_on (s_ids sc) p) ->
+  run sc = pre ++ Upd r :: post ->
+  changed (last_emitted pre (rs_id r)) r = true.
+Proof.
+  intros sc pre r post Hwf Hrun. unfold run in Hrun. destruct (s_pre sc) as [e|].
+  - exfalso. destruct pre as [|x [|y [|z t]]]; inversion Hrun.
+  - destruct (run_polls_safe _ _ [] [] Hwf prev_ok_nil) as [Hv _].
+    exact (valid_from_split _ [] pre r post Hv Hrun).
+Qed.
+
+Lemma grammar_thm : forall sc,
+  exists evs, Forall is_upd evs /\
+    (run sc = evs ++ [Close] \/ exists e, run sc = evs ++ [Err e; Close]).
+Proof.
+  intros sc. unfold run. destruct (s_pre sc) as [e|] eqn:Hp.
+  - exists []. split; [constructor|]. right. now exists e.
+  - assert (Hg : forall polls prev, exists evs, Forall is_upd evs /\
+       (run_polls (s_ids sc) prev polls = evs ++ [Close] \/
+        exists e, run_polls (s_ids sc) prev polls = evs ++ [Err e; Close])).
+    { induction polls as [|p t IH]; intros prev.
+      - exists []. split; [constructor | now left].
+      - simpl. destruct (poll_step (s_ids sc) prev p) as [[pv ev] out] eqn:E.
+        pose proof (poll_step_all_upd _ _ _ _ _ _ E) as Hu.
+        destruct out as [| |e].
+        + destruct (p_cancel p); [exists ev; split; [exact Hu | now left]|].
+          destruct (IH pv) as [evs [H1 [H2|[e H2]]]]; rewrite H2; exists (ev ++ evs);
+            (split; [apply Forall_app; now split|]); rewrite app_assoc; [now left | right; now exists e].
+        + exists ev. split; [exact Hu | now left].
+        + exists ev. split; [exact Hu | right; now exists e]. }
+    apply Hg.
+Qed.
+
+Lemma fatal_thm : forall ids ps p rest e,
+  Forall (clean ids) ps -> fatal_at ids p e ->
+  exists evs, Forall is_upd evs /\
+    run (mkSc ids None (ps ++ p :: rest)) = evs ++ [Err e; Close] /\
+    filter (fun it => match it with Err _ => true | _ => false end)
+           (run (mkSc ids None (ps ++ p :: rest))) = [Err e].
+Proof.
+  intros ids ps p rest e Hps Hf.
+  destruct (run_polls_fatal ids ps p rest e Hps Hf) as [evs [H1 H2]].
+  exists evs. unfold run. simpl. rewrite H2. repeat split; auto. now apply count_err_shape.
+Qed.
